@@ -1,6 +1,8 @@
 """C02 — state-space arithmetic: correspondence between StateSpace operators and the Lean model
 `CtrlVerif.Model.SSDyn` (driver family `ss`).  The block constructions executed by the driver
 are the typed definitions the theorems of Props/C02.lean are about."""
+import copy
+import json
 import re
 from fractions import Fraction
 
@@ -81,6 +83,16 @@ def ops_in(t, acc=None):
     return acc
 
 
+def leaf_keys(t, acc=None):
+    """serialisations of the system / array leaves, one entry per occurrence"""
+    acc = [] if acc is None else acc
+    if t[0] in ("L", "A"):
+        acc.append(json.dumps(t))
+    for i in children(t):
+        leaf_keys(t[i], acc)
+    return acc
+
+
 def has_dynamic_leaf(t):
     if t[0] == "L":
         return t[1] > 0
@@ -95,6 +107,8 @@ def inexact(t):
         return any(Fraction(x).denominator != 1 for part in t[5:9] for x in part)
     if t[0] == "S":
         return Fraction(t[1]).denominator != 1
+    if t[0] == "A":
+        return any(Fraction(x).denominator != 1 for x in t[3])
     return any(inexact(t[i]) for i in children(t))
 
 
@@ -150,29 +164,58 @@ def build_leaf(t):
     return ct.StateSpace(f(A, n, n), f(B, n, m), f(C, p, n), f(D, p, m), dt_value(dt))
 
 
-def run_tree(t):
+def key(t):
+    return json.dumps(t, separators=(",", ":"))
+
+
+def build(t):
     k = t[0]
     if k == "L":
         return build_leaf(t)
     if k == "S":
         return num_value(t[1], t[2])
-    if k == "A":
-        vals = [Fraction(x) for x in t[3]]
-        if t[4] == "int" and all(v.denominator == 1 for v in vals):
-            return np.array([int(v) for v in vals]).reshape(t[1], t[2])
-        return np.array([float(v) for v in vals]).reshape(t[1], t[2])
+    vals = [Fraction(x) for x in t[3]]
+    if t[4] == "int" and all(v.denominator == 1 for v in vals):
+        return np.array([int(v) for v in vals]).reshape(t[1], t[2])
+    return np.array([float(v) for v in vals]).reshape(t[1], t[2])
+
+
+def run_tree(t, leaves=None, nodes=None):
+    """Evaluate the tree with the real operators.  OBJECT SHARING: structurally identical leaves
+    (systems, arrays, scalars) are built once (`leaves`) and the same Python object is the operand
+    at every occurrence; identical subtrees are evaluated once per evaluation (`nodes`) and their
+    result object is reused, as in `H = G * K; H + H`.  Passing the same `leaves` to a second call
+    re-evaluates the expression on the operand objects the first evaluation has already used."""
+    leaves = {} if leaves is None else leaves
+    nodes = {} if nodes is None else nodes
+    k = t[0]
+    ky = key(t)
+    if k in ("L", "S", "A"):
+        if ky not in leaves:
+            leaves[ky] = build(t)
+        return leaves[ky]
+    if ky in nodes:
+        return nodes[ky]
+    r = run_node(t, leaves, nodes)
+    nodes[ky] = r
+    return r
+
+
+def run_node(t, leaves, nodes):
+    k = t[0]
+    ev = lambda x: run_tree(x, leaves, nodes)
     if k == "neg":
-        return -run_tree(t[1])
+        return -ev(t[1])
     if k == "pow":
-        return run_tree(t[2]) ** t[1]
+        return ev(t[2]) ** t[1]
     if k == "fb":
-        a, b = run_tree(t[3]), run_tree(t[4])
+        a, b = ev(t[3]), ev(t[4])
         sign = num_value(t[1], "float" if Fraction(t[1]).denominator != 1 else "int")
         if t[2] == "func":
             return ct.feedback(a, b, sign)
         return a.feedback(b, sign)
     if k == "lft":
-        a, b = run_tree(t[3]), run_tree(t[4])
+        a, b = ev(t[3]), ev(t[4])
         if not isinstance(a, ct.StateSpace):
             raise ValueError("lft: upper operand is not a system")
         if t[1] == -1 and t[2] == -1:
@@ -183,8 +226,8 @@ def run_tree(t):
             return a.lft(b, ny=t[2])
         return a.lft(b, t[1], t[2])
     if k == "sel":
-        return run_tree(t[3])[t[1], t[2]]
-    a, b = run_tree(t[1]), run_tree(t[2])
+        return ev(t[3])[t[1], t[2]]
+    a, b = ev(t[1]), ev(t[2])
     if k == "add":
         return a + b
     if k == "sub":
@@ -227,22 +270,120 @@ def one_by_zero(o):
     return o["type"] == "ss" and ((o["m"] == 0 and 1 in (o["n"], o["p"])) or (o["n"] == 0 and o["p"] == 1))
 
 
+# ----------------------------------------------------------------------------
+# conditioning guard of the well-posedness tests (feedback / lft)
+# ----------------------------------------------------------------------------
+RANK_MARGIN = 8          # demand an error only when sigma_min <= tol / RANK_MARGIN
+
+def inverting_nodes(t, acc=None):
+    acc = [] if acc is None else acc
+    if t[0] in TOPS or (t[0] == "pow" and t[1] < 0):
+        acc.append(t)
+    for i in children(t):
+        inverting_nodes(t[i], acc)
+    return acc
+
+
+def leaf_D(t):
+    """the float direct term a leaf operand presents to feedback / lft (after
+    _convert_to_statespace), or None"""
+    if t[0] == "L":
+        _, n, p, m, dt, A, B, C, D = t
+        return np.array([float(Fraction(x)) for x in D], dtype=float).reshape(p, m)
+    if t[0] == "A":
+        return np.array([float(Fraction(x)) for x in t[3]], dtype=float).reshape(t[1], t[2])
+    return None
+
+
+def loop_matrix(node):
+    """The matrix whose rank decides well-posedness, formed in floating point from the operands'
+    float data with the formula the operation is specified by (feedback: I - sign D2 D1; lft:
+    [[I, -D22], [-Dbar11, I]]).  None when the node is not a feedback / lft of two leaves of
+    matching shapes."""
+    if node[0] not in ("fb", "lft"):
+        return None
+    D1, D2 = leaf_D(node[3]), leaf_D(node[4])
+    if D1 is None or D2 is None or node[3][0] != "L":
+        return None
+    p, m = D1.shape
+    if node[0] == "fb":
+        if D2.shape != (m, p):
+            return None
+        sign = num_value(node[1], "float" if Fraction(node[1]).denominator != 1 else "int")
+        return np.eye(m) - sign * D2 @ D1
+    nu, ny = node[1], node[2]
+    if ny == -1:
+        ny = min(D2.shape[1], p)
+    if nu == -1:
+        nu = min(D2.shape[0], m)
+    if not (0 <= nu <= min(m, D2.shape[0]) and 0 <= ny <= min(p, D2.shape[1])) or nu + ny == 0:
+        return None
+    D22, Db11 = D1[p - ny:, m - nu:], D2[:nu, :ny]
+    return np.block([[np.eye(ny), -D22], [-Db11, np.eye(nu)]])
+
+
+def rank_margin(F):
+    """sigma_min / (sigma_max * n * eps) of the float matrix F: numpy.linalg.matrix_rank(F) reports
+    a deficient rank iff this is <= 1.  A 1x1 matrix is deficient only when it is exactly 0."""
+    n = F.shape[0]
+    S = np.linalg.svd(F, compute_uv=False)
+    if S[0] == 0:
+        return 0.0
+    return float(S[-1] / (S[0] * n * np.finfo(float).eps))
+
+
+def rank_demand(t):
+    """Decide whether `the model says ill-posed` can be DEMANDED of the implementation although the
+    data are not exactly representable.  The exact loop matrix (intended rationals) is singular; the
+    implementation sees the rounded data, whose loop matrix is singular only `to working precision`.
+    The demand is made when the tree has exactly one inverting operation, it is a feedback / lft of
+    two leaves, and the float loop matrix is rank deficient by numpy's own criterion
+    (tol = sigma_max * n * eps) with a factor RANK_MARGIN to spare.  Returns the margin or None."""
+    inv = inverting_nodes(t)
+    if len(inv) != 1:
+        return None
+    F = loop_matrix(inv[0])
+    if F is None or not np.all(np.isfinite(F)):
+        return None
+    q = rank_margin(F)
+    return q if q * RANK_MARGIN <= 1 else None
+
+
 class C02(Family):
     prop = "C02"
     extra_modules = ["CtrlVerif.Props.C02Tree"]      # tree theorem (structural induction)
     externals = ["numpy.linalg.solve / scipy.linalg.inv / matrix_rank (the model uses det != 0 and "
-                 "the certified inverse det^-1 * adjugate)"]
+                 "the certified inverse det^-1 * adjugate)",
+                 "numpy.linalg.svd in the harness (conditioning guard of the rank tests: an error is "
+                 "demanded for non-representable ill-posed data only when the float loop matrix is "
+                 "rank deficient by matrix_rank's own tolerance with a factor 8 to spare)"]
     assumptions = [
         "IEEE arithmetic is exact on the generated small-integer matrices for + - * neg append "
         "indexing (checked: exact equality required when the model's largest intermediate is "
-        "below 2^50); results of feedback / inversion / division are compared to 1e-8 relative",
+        "below 2^50); results of feedback / inversion / division and of any operation on "
+        "non-integer data are compared to 1e-8 relative",
+        "an ill-posed loop given by decimal data that binary floating point cannot represent is "
+        "singular only to working precision for the implementation: the error is demanded when "
+        "sigma_min(F) <= sigma_max(F) * n * eps / 8 for the float loop matrix F formed from the "
+        "rounded operands by the specified formula (numpy's SVD, same process); otherwise, and "
+        "for ** -1 / division by such a direct term (scipy.linalg.inv raises only on an exactly "
+        "zero pivot), nothing is demanded",
+        "structurally identical leaves of a tree are one Python object (operands are re-used), "
+        "identical subtrees are evaluated once, and every tree is evaluated twice on the same "
+        "operand objects; the model's values are immutable, so its result is the same each time",
         "TransferFunction operands of StateSpace operators go through tf2ss, which is C03",
         "the timebase of results is decided by C05; C02 uses operands with compatible timebases"]
     rule = ("random expression trees over StateSpace leaves (nstates 0..3, shapes {1,2,3}^2, integer "
             "matrices -3..3, D zero or not), Python/NumPy scalars and arrays on either side, "
             "operators + - * / neg ** feedback lft append indexing (lft: every nu/ny partition with "
             "nu+ny <= 4 of upper/lower shapes up to 4x4, explicit and default (-1) arguments, zero and "
-            "non-zero D22 / Dbar11, exactly singular F, out-of-range nu/ny); a case is non-trivial when it has a "
+            "non-zero D22 / Dbar11, exactly singular F, out-of-range nu/ny); trees whose leaves come "
+            "from a small pool so that the same operand object is used several times, and "
+            "(G op X) op G patterns with X a scalar / array / system on either side; every tree "
+            "evaluated twice on the same operand objects; MIMO feedback loops and lft partitions that "
+            "are ill-posed for finite-decimal data not representable in binary (and well-posed "
+            "neighbours), ** -1 / division by such direct terms, and inversion-free arithmetic on "
+            "one-decimal data; a case is non-trivial when it has a "
             "leaf with states, at least one binary operator or feedback, and the model result has "
             "states; distinct = distinct canonical serialisation")
 
@@ -250,7 +391,28 @@ class C02(Family):
     def rint(self, rng, lo=-3, hi=3):
         return rng.randint(lo, hi)
 
+    _pool = None          # operand pool (dict) while a tree with re-used operands is generated
+    _ops = None           # restriction of the operator set of `gen` (None: all)
+    _decimal = False      # leaves / arrays with one-decimal (non-dyadic) data
+
+    def pooled(self, rng, k, make):
+        """operand pool: with probability 0.6 an operand generated earlier for the same tree (same
+        kind / shape / requirements) is used again - structurally identical leaves are ONE object
+        in `run_tree` - otherwise a new one is made and remembered"""
+        if self._pool is None:
+            return make()
+        have = self._pool.setdefault(k, [])
+        if have and rng.random() < 0.6:
+            return copy.deepcopy(rng.choice(have))
+        x = make()
+        have.append(x)
+        return copy.deepcopy(x)
+
     def leaf(self, rng, shape, dt, invertible=False, n=None):
+        return self.pooled(rng, ("L", tuple(shape), bool(invertible), n),
+                           lambda: self.leaf_new(rng, shape, dt, invertible, n))
+
+    def leaf_new(self, rng, shape, dt, invertible=False, n=None):
         p, m = shape
         if n is None:
             n = rng.choice([0, 1, 1, 2, 2, 3])
@@ -265,13 +427,21 @@ class C02(Family):
             if invertible and p == m and exmat.det(exmat.from_flat(D, p, m)) == 0:
                 continue
             break
-        if rng.random() < 0.12:      # dyadic non-integers
+        if self._decimal:            # one-decimal data: not representable, every operation rounds
+            dec = lambda v: [Fraction(10 * x + rng.randint(-4, 4), 10) for x in v]
+            A, B, C = dec(A), dec(B), dec(C)
+            if any(D) and not invertible:
+                D = dec(D)
+        elif rng.random() < 0.12:      # dyadic non-integers
             B = [Fraction(x, 2) for x in B]
         ldt = dt if rng.random() < 0.8 else "N"
         s = lambda v: [tok(Fraction(x)) for x in v]
         return ["L", n, p, m, ldt, s(A), s(B), s(C), s(D)]
 
     def scalar(self, rng, nonzero=False):
+        if self._decimal:
+            v = rng.choice([x for x in range(-34, 35) if x % 5 or not nonzero and x == 0])
+            return ["S", tok(Fraction(v, 10)), rng.choice(["float", "npfloat"])]
         kind = rng.choice(["int", "float", "npfloat", "npint"])
         v = rng.choice([-3, -2, -1, 1, 2, 3] + ([] if nonzero else [0]))
         if kind in ("float", "npfloat") and rng.random() < 0.4:
@@ -279,7 +449,12 @@ class C02(Family):
         return ["S", str(v), kind]
 
     def array(self, rng, shape):
+        return self.pooled(rng, ("A", tuple(shape)), lambda: self.array_new(rng, shape))
+
+    def array_new(self, rng, shape):
         p, m = shape
+        if self._decimal:
+            return ["A", p, m, [tok(Fraction(rng.randint(-34, 34), 10)) for _ in range(p * m)], "float"]
         return ["A", p, m, [str(rng.randint(-3, 3)) for _ in range(p * m)], rng.choice(["int", "float"])]
 
     def rshape(self, rng):
@@ -294,6 +469,8 @@ class C02(Family):
             ops += ["pow", "pow"]
         if p >= 2 and m >= 2:
             ops += ["append", "append"]
+        if self._ops is not None:
+            ops = [o for o in ops if o in self._ops]
         op = rng.choice(ops)
         d = depth - 1
         bad = rng.random() < 0.04
@@ -448,6 +625,215 @@ class C02(Family):
         a_nu, a_ny = self.lft_args(rng, nu, ny, gs, hs, bad=rng.random() < 0.08)
         return ["lft", a_nu, a_ny, g, h]
 
+    # ---- non-representable (decimal) data ------------------------------------------------
+    def dec(self, rng, mode):
+        if mode == 0:
+            return Fraction(rng.randint(-29, 29), 10)
+        if mode == 1:
+            return Fraction(rng.randint(-9, 9), 10)
+        if mode == 2:
+            return Fraction(rng.randint(-3, 3))
+        return Fraction(rng.randint(-99, 99), 100)
+
+    def eig1_pair(self, rng, p, m, s):
+        """D1 (p x m), D2 (m x p) with finite-decimal entries (most of them not representable in
+        binary) such that  s * D2 * D1 * v = v  for an integer vector v != 0, i.e. the loop matrix
+        I - s D2 D1 is exactly singular for the intended data."""
+        md1, md2 = rng.choice([0, 0, 1, 2, 3]), rng.choice([0, 1, 2, 2, 3])
+        while True:
+            v = [rng.randint(-2, 2) for _ in range(m)]
+            js = [j for j in range(m) if abs(v[j]) == 1]
+            if js:
+                break
+        j0 = rng.choice(js)
+        ent = lambda md: self.dec(rng, md) if rng.random() < 0.8 else Fraction(rng.randint(-3, 3))
+        D1 = [[ent(md1) for _ in range(m)] for _ in range(p)]
+        k0 = rng.randrange(p)
+        t = Fraction(rng.choice(["1", "-1", "2", "-2", "1/2", "-1/2"]))
+        D1[k0][j0] = (t - sum(D1[k0][j] * v[j] for j in range(m) if j != j0)) / v[j0]
+        w = [sum(D1[k][j] * v[j] for j in range(m)) for k in range(p)]
+        D2 = [[ent(md2) for _ in range(p)] for _ in range(m)]
+        for i in range(m):
+            D2[i][k0] = (Fraction(v[i]) / s - sum(D2[i][k] * w[k] for k in range(p) if k != k0)) / t
+        return D1, D2
+
+    def stoch_pair(self, rng, m, s):
+        """D2 = I and D1 = (I - F) / s with F = rows orthogonal to an integer vector (the loop of
+        the kind D1 = [[0.7, 0.3], [0.1, 0.9]], D2 = I, sign = +1)"""
+        while True:
+            v = [rng.choice([-2, -1, 1, 1, 2]) for _ in range(m)]
+            js = [j for j in range(m) if abs(v[j]) == 1]
+            if js:
+                break
+        j0 = rng.choice(js)
+        F = [[self.dec(rng, rng.choice([0, 1])) for _ in range(m)] for _ in range(m)]
+        for i in range(m):
+            F[i][j0] = -sum(F[i][j] * v[j] for j in range(m) if j != j0) / v[j0]
+        D1 = exmat.scale(1 / s, exmat.sub(exmat.eye(m), F))
+        return D1, exmat.eye(m)
+
+    def static_or_dynamic(self, rng, shape, dt, D, kinds=("L", "L", "L0", "A")):
+        """an operand with the given direct term: system with states, static system, or ndarray"""
+        k = rng.choice(kinds)
+        if k == "A":
+            return ["A", shape[0], shape[1], exmat.flat_tokens(D), "float"]
+        g = self.leaf_new(rng, shape, dt, n=0 if k == "L0" else rng.choice([1, 1, 2, 3]))
+        g[8] = exmat.flat_tokens(D)
+        return g
+
+    def loop_decimal(self, rng, dt, wellposed=False):
+        """MIMO feedback loop (F is m x m, m >= 2; the plant may be non-square, p = 1..3) whose
+        loop matrix is exactly singular for the intended decimal data; with `wellposed` the
+        forward direct term is scaled so that the loop is comfortably well-posed."""
+        for _ in range(200):
+            m, p = rng.choice([2, 2, 3]), rng.choice([1, 2, 2, 3, 3])
+            sign = rng.choice(["1", "-1", "1", "-1", "2", "-1/2"])
+            if rng.random() < 0.3:
+                p = m
+                D1, D2 = self.stoch_pair(rng, m, Fraction(sign))
+            else:
+                D1, D2 = self.eig1_pair(rng, p, m, Fraction(sign))
+            if wellposed:
+                D1 = exmat.scale(Fraction(rng.choice(["1/2", "-1", "3/2", "2", "-1/2", "3"])), D1)
+            F = exmat.sub(exmat.eye(m), exmat.scale(Fraction(sign), exmat.mul(D2, D1)))
+            g = self.static_or_dynamic(rng, (p, m), dt, D1, kinds=("L", "L", "L", "L0"))
+            h = self.static_or_dynamic(rng, (m, p), dt, D2)
+            t = ["fb", sign, rng.choice(["method", "func"]), g, h]
+            if wellposed:
+                Fi = exmat.solve(F, exmat.eye(m))
+                if Fi is None or exmat.maxabs(Fi) > 20:
+                    continue
+                return t
+            if rank_demand(t) is not None or rng.random() < 0.1:
+                return t
+        return t
+
+    def lft_decimal(self, rng, dt, wellposed=False):
+        """lft whose loop matrix [[I, -D22], [-Dbar11, I]] is exactly singular for the intended
+        decimal data (nu, ny >= 1, nu + ny <= 4; also the SISO loop nu = ny = 1, where F is 2 x 2)"""
+        for _ in range(200):
+            nu, ny = rng.choice([1, 1, 2]), rng.choice([1, 1, 2])
+            gs = (ny + rng.choice([0, 1, 1, 2]), nu + rng.choice([0, 1, 1, 2]))
+            hs = (nu + rng.choice([0, 0, 1]), ny + rng.choice([0, 0, 1]))
+            if max(gs + hs) > 4 or gs[1] - nu + hs[1] - ny < 1 or gs[0] - ny + hs[0] - nu < 1:
+                continue          # (results without inputs / outputs: known finding one-by-zero)
+            Db11, D22 = self.eig1_pair(rng, nu, ny, Fraction(1))     # D22 * Dbar11 * v = v
+            if wellposed:
+                D22 = exmat.scale(Fraction(rng.choice(["1/2", "-1", "3/2", "2", "-1/2", "3"])), D22)
+            F = exmat.sub(exmat.eye(ny), exmat.mul(D22, Db11))
+            g = self.leaf_new(rng, gs, dt, n=rng.choice([0, 1, 1, 2]))
+            Dg = exmat.from_flat(g[8], *gs)
+            Dg = [[self.dec(rng, 0) if rng.random() < 0.5 else x for x in row] for row in Dg]
+            for i in range(ny):
+                for j in range(nu):
+                    Dg[gs[0] - ny + i][gs[1] - nu + j] = D22[i][j]
+            g[8] = exmat.flat_tokens(Dg)
+            Dh = [[self.dec(rng, 0) if rng.random() < 0.5 else Fraction(rng.randint(-3, 3))
+                   for _ in range(hs[1])] for _ in range(hs[0])]
+            for i in range(nu):
+                for j in range(ny):
+                    Dh[i][j] = Db11[i][j]
+            h = self.static_or_dynamic(rng, hs, dt, Dh)
+            a_nu, a_ny = self.lft_args(rng, nu, ny, gs, hs)
+            t = ["lft", a_nu, a_ny, g, h]
+            if wellposed:
+                Fi = exmat.solve(F, exmat.eye(ny))
+                if Fi is None or exmat.maxabs(Fi) > 20:
+                    continue
+                return t
+            if rank_demand(t) is not None or rng.random() < 0.1:
+                return t
+        return t
+
+    def inverse_decimal(self, rng, dt):
+        """** -1 / division by a system whose direct term is exactly singular for the intended
+        decimal data.  Nothing can be demanded of the implementation here (scipy.linalg.inv raises
+        only on an exactly zero pivot of the rounded data): the case documents the input class and
+        checks that nothing else goes wrong."""
+        p = rng.choice([2, 2, 3])
+        D, _ = self.stoch_pair(rng, p, Fraction(1))
+        D = exmat.sub(exmat.eye(p), D)               # rows orthogonal to v: singular
+        g = self.leaf_new(rng, (p, p), dt)
+        g[8] = exmat.flat_tokens(D)
+        if rng.random() < 0.6:
+            return ["pow", rng.choice([-1, -1, -2]), g]
+        x = self.leaf_new(rng, (rng.choice([1, 2, 3]), p), dt) if rng.random() < 0.6 else self.scalar(rng)
+        return ["div", x, g]
+
+    def gen_decimal(self, rng, dt):
+        """arithmetic without inversion on one-decimal data (every operation rounds: tolerance
+        regime), operands re-used"""
+        self._decimal, self._pool = True, {}
+        self._ops = ("add", "sub", "mul", "neg", "sel", "append", "pow")
+        try:
+            shape = self.rshape(rng)
+            t = self.gen(rng, rng.choice([1, 2, 2]), shape, dt)
+        finally:
+            self._decimal, self._pool, self._ops = False, None, None
+        return t
+
+    # ---- operand re-use (object sharing) -----------------------------------------------------
+    def gen_shared(self, rng, depth, dt):
+        """a random tree whose leaves are drawn from a small pool: the same operand object takes
+        part in several operations of one expression (all operators, scalars / arrays / systems
+        on either side)"""
+        self._pool = {}
+        try:
+            k = rng.choice([1, 2, 2, 3])
+            shape = (k, k) if rng.random() < 0.6 else self.rshape(rng)
+            return self.gen(rng, depth, shape, dt)
+        finally:
+            self._pool = None
+
+    def reuse_pattern(self, rng, dt):
+        """(G op1 X) op2 G ...: an operand is used again after it took part in an operation with a
+        scalar / array / system on either side"""
+        sq = rng.random() < 0.5
+        k = rng.choice([1, 2, 2, 3])
+        shape = (k, k) if sq else rng.choice([(2, 3), (3, 2), (1, 2), (2, 1), (1, 3), (2, 2), (3, 3)])
+        p, m = shape
+        G = self.leaf_new(rng, shape, dt, n=rng.choice([0, 1, 1, 2, 2]))
+        if not any(Fraction(x) for x in G[8]) and rng.random() < 0.7:
+            G[8] = [str(rng.randint(-3, 3)) for _ in range(p * m)]
+        kind = rng.choice(["scalar", "array", "array", "sys", "sys", "siso"])
+        if kind == "scalar":
+            X = self.scalar(rng, nonzero=True)
+        elif kind == "array":
+            X = self.array_new(rng, shape)
+        elif kind == "siso":
+            X = self.leaf_new(rng, (1, 1), dt, n=rng.choice([0, 1, 2]))
+        else:
+            X = self.leaf_new(rng, shape, dt)
+        firsts = [["add", G, X], ["add", X, G], ["sub", G, X], ["sub", X, G], ["add", G, X], ["sub", G, X]]
+        if kind in ("scalar", "siso"):
+            firsts += [["mul", G, X], ["mul", X, G]]
+            if kind == "scalar":
+                firsts += [["div", G, X]]
+        if kind == "array":
+            firsts += [["mul", G, self.array_new(rng, (m, m))], ["mul", self.array_new(rng, (p, p)), G]]
+        if kind == "sys" and p == m:
+            firsts += [["mul", G, X], ["mul", X, G]]
+        if kind in ("array", "sys"):
+            K = self.array_new(rng, (m, p)) if kind == "array" else self.leaf_new(rng, (m, p), dt)
+            firsts += [["fb", rng.choice(["1", "-1"]), rng.choice(["method", "func"]), G, K]]
+        firsts += [["neg", G]]
+        if p == m:
+            firsts += [["pow", rng.choice([1, 1, 2]), G]]
+        first = rng.choice(firsts)
+        seconds = [["sub", first, G], ["add", first, G], ["sub", G, first], ["add", G, first],
+                   ["append", first, G], ["append", G, first]]
+        if p == m:
+            seconds += [["mul", first, G], ["mul", G, first]]
+        Kb = self.leaf_new(rng, (m, p), dt, n=rng.choice([0, 1]))
+        seconds += [["fb", "-1", "method", first, Kb], ["mul", ["mul", first, Kb], G]]
+        second = rng.choice(seconds)
+        r = rng.random()
+        if r < 0.35 and second[0] != "append":
+            return [rng.choice(["add", "sub"]), second, X]           # ... and the partner once more
+        if r < 0.5:
+            return [rng.choice(["add", "sub"]), second, first]       # the intermediate result re-used
+        return second
+
     def special(self, rng):
         """streams that need something specific"""
         dt = rng.choice(["C", "C", "N", "T", DT01])
@@ -500,6 +886,24 @@ class C02(Family):
             out.append({"tree": self.gen(rng, depth, self.rshape(rng), dt)})
         for i in range(60 if tier == "quick" else 1200):      # lft partitions on leaves
             out.append({"tree": self.lft_special(rng, rng.choice(["C", "C", "N", "T", DT01]))})
+        q = tier == "quick"
+        dts = ["C", "C", "N", "T", DT01]
+        for i in range(70 if q else 800):        # operands re-used inside one expression
+            out.append({"tree": self.gen_shared(rng, rng.choice([2, 2, 3]), rng.choice(dts))})
+        for i in range(50 if q else 500):
+            out.append({"tree": self.reuse_pattern(rng, rng.choice(dts))})
+        for i in range(40 if q else 500):        # loops ill-posed for non-representable data
+            out.append({"tree": self.loop_decimal(rng, rng.choice(dts))})
+        for i in range(25 if q else 300):
+            out.append({"tree": self.lft_decimal(rng, rng.choice(dts))})
+        for i in range(15 if q else 150):        # ... and their well-posed neighbours
+            out.append({"tree": self.loop_decimal(rng, rng.choice(dts), wellposed=True)})
+        for i in range(10 if q else 100):
+            out.append({"tree": self.lft_decimal(rng, rng.choice(dts), wellposed=True)})
+        for i in range(6 if q else 40):
+            out.append({"tree": self.inverse_decimal(rng, rng.choice(dts))})
+        for i in range(30 if q else 300):        # rounding arithmetic on decimal data
+            out.append({"tree": self.gen_decimal(rng, rng.choice(dts))})
         return out
 
     def corpus(self):
@@ -514,6 +918,14 @@ class C02(Family):
             {"tree": ["lft", -1, -1, L(1, 2, 2, [-1], [1, 2], [1, 3], [0, 1, 1, 1]), L(1, 1, 1, [-2], [1], [1], [1])]},
             {"tree": ["lft", 1, 2, L(2, 3, 2, [-1, 0, 1, -2], [1, 2, 0, 1], [1, 3, 0, 1, 2, 2], [0, 1, 1, 2, 0, 0]),
                       L(1, 2, 3, [-2], [1, 0, 2], [1, 3], [1, 0, 0, 2, 1, 0])]},
+            # ill-posed for the intended decimals, singular only up to rounding in floats
+            {"tree": ["fb", "1", "method", L(1, 2, 2, [-1], [1, 2], [1, -1], ["7/10", "3/10", "1/10", "9/10"]),
+                      L(0, 2, 2, [], [], [], [1, 0, 0, 1])]},
+            {"tree": ["lft", 1, 1, L(1, 2, 2, [-1], [1, 2], [1, 3], [0, 1, 1, "2/5"]),
+                      L(1, 1, 1, [-2], [1], [1], ["5/2"])]},
+            # an operand used again after it took part in an operation (one object per identical leaf)
+            {"tree": ["sub", ["add", g32, ["A", 3, 2, ["1", "2", "3", "4", "5", "6"], "float"]], g32]},
+            {"tree": ["add", ["mul", g22, ["S", "2", "float"]], g22]},
         ]
 
     # ---- execution ----------------------------------------------------------
@@ -521,14 +933,25 @@ class C02(Family):
         return "ss " + flatten(case["tree"])
 
     def impl(self, case):
-        try:
-            r = run_tree(case["tree"])
-        except Exception as e:  # noqa
-            return {"err": classify_exc(e), "exc": "%s: %s" % (type(e).__name__, str(e)[:200])}
-        try:
-            return canon_result(r)
-        except ValueError:
-            return {"ok": {"type": "nonfinite"}}
+        """first evaluation of the tree, and - on the SAME operand objects - a second one; the
+        second result is recorded (`again`) only when it is not identical to the first"""
+        leaves = {}
+
+        def once():
+            try:
+                r = run_tree(case["tree"], leaves, {})
+            except Exception as e:  # noqa
+                return {"err": classify_exc(e), "exc": "%s: %s" % (type(e).__name__, str(e)[:200])}
+            try:
+                return canon_result(r)
+            except ValueError:
+                return {"ok": {"type": "nonfinite"}}
+        first = once()
+        if "err" not in first:
+            second = once()
+            if second != first:
+                first["again"] = second
+        return first
 
     def parse_model(self, case, out):
         if out.startswith("err "):
@@ -582,11 +1005,25 @@ class C02(Family):
         return None
 
     def compare(self, case, impl, model):
+        v = self.compare_one(case, impl, model)
+        if v.status != AGREE or "again" not in impl:
+            return v
+        # the operands are values: evaluating the expression once more on the same operand objects
+        # must give the same result
+        v2 = self.compare_one(case, impl["again"], model)
+        if v2.status == AGREE:
+            return v2        # (tolerance regime: both evaluations within tolerance of the model)
+        feat = dict(v2.features)
+        feat["evaluation"] = 2
+        return Verdict(v2.status, "second evaluation of the same expression on the same operand "
+                       "objects (the first agreed with the model): " + v2.detail, feat)
+
+    def compare_one(self, case, impl, model):
         t = case["tree"]
         if "err" in model:
             if "err" in impl:
                 return Verdict(AGREE)
-            if model["err"] == "illPosed" and nested_inexact(t):
+            if model["err"] == "illPosed" and nested_inexact(t) and rank_demand(t) is None:
                 return Verdict(AGREE)   # conditioning guard: singularity of a rounded intermediate
             if model["err"] in ("shape", "illPosed", "indexRange", "zeroDen"):
                 feat = self.features(case, "returns-" + model["err"], impl)
@@ -656,6 +1093,11 @@ class C02(Family):
             st["regime"] = "E" if (model.get("bits", 0) <= 50 and not inexact(t)) else "T"
         if "err" in model and "err" in impl:
             st["errkind_equal"] = impl["err"] == model["err"]
+        if model.get("err") == "illPosed" and nested_inexact(t):
+            # singular for the intended (non-representable / intermediate) data
+            st["illposed_rounded"] = "error-demanded" if rank_demand(t) is not None else "guarded"
+        lv = leaf_keys(t)
+        st["operand_reused"] = len(lv) != len(set(lv))
         return st
 
     # ---- shrinking / search ----------------------------------------------------
@@ -681,20 +1123,33 @@ class C02(Family):
             for i in children(t):
                 yield pre + (i,)
                 yield from paths(t[i], pre + (i,))
+
+        def replace_all(t, old, new):
+            """a shared operand is ONE object: shrink every occurrence of it together"""
+            if t == old:
+                return new
+            t = list(t)
+            for i in children(t):
+                t[i] = replace_all(t[i], old, new)
+            return t
+        seen = set()
         for pth in paths(t):
             sub = t
             for i in pth:
                 sub = sub[i]
             if sub[0] == "L":
+                if key(sub) in seen:
+                    continue
+                seen.add(key(sub))
                 _, n, p, m, dt, A, B, C, D = sub
                 if n > 1:
                     n2 = n - 1
                     A2 = [A[i * n + j] for i in range(n2) for j in range(n2)]
                     B2 = B[:n2 * m]
                     C2 = [C[i * n + j] for i in range(p) for j in range(n2)]
-                    yield {"tree": rebuild(t, list(pth), ["L", n2, p, m, dt, A2, B2, C2, D])}
+                    yield {"tree": replace_all(t, sub, ["L", n2, p, m, dt, A2, B2, C2, D])}
                 if dt != "C":
-                    yield {"tree": rebuild(t, list(pth), ["L", n, p, m, "C", A, B, C, D])}
+                    yield {"tree": replace_all(t, sub, ["L", n, p, m, "C", A, B, C, D])}
             elif sub[0] not in ("S", "A"):
                 for i in children(sub):
                     yield {"tree": rebuild(t, list(pth), sub[i])}
